@@ -41,21 +41,10 @@ func main() {
 
 	// 1. decorators, by constructor name
 	var chain []string
-	if fd := af["NewAnteHandlerEVM"]; fd != nil && fd.Body != nil {
-		ast.Inspect(fd.Body, func(n ast.Node) bool {
-			call, ok := n.(*ast.CallExpr)
-			if !ok {
-				return true
-			}
-			if sel, ok := call.Fun.(*ast.SelectorExpr); ok && sel.Sel.Name == "ChainAnteDecorators" {
-				for _, a := range call.Args {
-					chain = append(chain, calleeName(a))
-				}
-				return false
-			}
-			return true
-		})
+	for _, a := range chainDecorators(af["NewAnteHandlerEVM"]) {
+		chain = append(chain, calleeName(a))
 	}
+	pkgFuncs = kf
 
 	// 2. VerifyFee: every fee it returns that is not the literal zero is WeiToNative(txData.EffectiveFeeWei(NativeToWei(base)))
 	feeEffective := false
